@@ -7,6 +7,15 @@ CHECKS = {
     "C01": ("exploration", "property-based testing (Hypothesis): render/parse round-trip vs. the rendered datetime; thorough tier walks every calendar day 0001-9999",
             "Generated round-trip search: boundary-biased datetimes x 17 harness-written renderings x language/PREFER_* choices, and epoch timestamps x suffix x sign x zones against an independent pytz computation. Thorough enumerates all 3.65 M calendar days once. Search, not proof: absence of a counterexample in the explored set.",
             "Trusts pytz for zone arithmetic and Python's datetime; process TZ=UTC.", "DESIGN.md §4 C01"),
+    "C05": ("exploration", "exhaustive table walk + property-based sampling (Hypothesis): every listed month/weekday name parsed and compared with the meaning the data declares",
+            "Complete walk over all 504 locale codes x NORMALIZE on/off x SKIP_TOKENS default/[] x every single-meaning month/weekday spelling (exhaustive in the thorough tier, all languages + 20% of regional locales in quick), plus Hypothesis sampling of days/years/reference dates. 36 (language, name) pairs that fail on the pinned tree are listed as known findings; any other failing name is a violation.",
+            "The data module's key is the name's meaning; harness-side overlay of locale_specific; frozen clock via module-level datetime replacement.", "DESIGN.md §4 C05"),
+    "C16": ("exploration", "exhaustive regenerate-and-compare of all generated artefacts + differential property-based test (Hypothesis) of the loaded vs rebuilt timezone table",
+            "All 205 modules are regenerated with the repository's own generator and compared byte for byte; all 773 timezone entries and both search regexes are rebuilt and compared with the pickle and the imported table; every index entry is checked (exhaustive: true). A generated differential drives pop_tz_offset_from_string with both tables.",
+            "Vendored pure-Python PyYAML with a YAML-1.2 resolver shim stands in for ruamel.yaml (validated by byte-for-byte reproduction).", "DESIGN.md §4 C16"),
+    "C19": ("fault_enumeration", "fault injection over every truncation point of the cache file (enumerated; Hypothesis for junk contents) with table-equality oracle, validated by real interpreter imports",
+            "Every prefix length of the cache (thorough: all 134 537; quick: boundaries + opcode boundaries + seeded sample), missing file, wrong-shape pickles and generated junk are injected into a copy; load must succeed, yield the source-defined table, leave a complete cache on disk and take the fast path next time. A subset is re-run as real `import dateparser` subprocesses.",
+            "Interrupted/concurrent writes leave a prefix of the file; directory writable.", "DESIGN.md §4 C19"),
 }
 NOT_APPLICABLE = []
 
